@@ -52,6 +52,17 @@ class LimitList(list):
     def extend(self, xs):
         for x in xs: self.append(x)
     def __reduce__(self): return (LimitList, (), {'limit': self.limit}, iter(list(self)), None)
+class UpperKeys(dict):
+    """dict subclass whose __setitem__ normalises keys; pickle restores items through __setitem__"""
+    def __setitem__(self, k, v): dict.__setitem__(self, k.upper() if isinstance(k, str) else k, v)
+class Doubling(dict):
+    def __setitem__(self, k, v): dict.__setitem__(self, k, v * 2 if isinstance(v, (int, str)) and not isinstance(v, bool) else v)
+class Tracking(list):
+    """list subclass whose append/extend record how many items came through them"""
+    def __init__(self, *a): list.__init__(self, *a); self.seen = 0
+    def append(self, x): self.seen += 1; list.append(self, x)
+    def extend(self, xs):
+        for x in xs: self.append(x)
 class Color(enum.Enum):
     RED = 1; BLUE = 2
 Point = collections.namedtuple('Point', 'x y')
@@ -90,9 +101,11 @@ def build(rng, depth, pool, allow_special=True):
     if depth <= 0 or r < 0.3:
         return rng.choice([None, True, 3, -1.5, 'text', 'yes', b'by', (1, 'a'), 2 + 3j, Color.RED, Color.BLUE, Point(1, 2), PlainDict, some_function, collections.OrderedDict, len, (), float('inf'), os.path.join])
     sub = lambda: build(rng, depth - 1, pool, allow_special)
-    kinds = ['plain', 'slots', 'slotschild', 'slotsdict', 'getset', 'getsettuple', 'newargs', 'reducelist', 'reducedict', 'listsub', 'dictsub', 'listsubattr', 'list', 'dict', 'tuple', 'odict', 'set', 'point']
+    kinds = ['upperkeys', 'doubling', 'plain', 'slots', 'slotschild', 'slotsdict', 'getset', 'getsettuple', 'newargs', 'reducelist', 'reducedict', 'listsub', 'dictsub', 'listsubattr', 'list', 'dict', 'tuple', 'odict', 'set', 'point']
     k = rng.choice(kinds)
-    if k == 'plain': o = PlainDict(a=sub(), b=sub())
+    if k == 'upperkeys': o = UpperKeys({'raw%d' % i: sub() for i in range(rng.choice([0, 1, 2]))})       # built through dict(): keys are still raw
+    elif k == 'doubling': o = Doubling({'k%d' % i: rng.choice([1, 'ab', 2.5]) for i in range(rng.choice([0, 1, 2]))})
+    elif k == 'plain': o = PlainDict(a=sub(), b=sub())
     elif k == 'slots': o = Slots(sub(), sub())
     elif k == 'slotschild': o = SlotsChild(sub(), 1, sub())
     elif k == 'slotsdict': o = SlotsAndDict(sub(), 2, extra=sub())
@@ -119,7 +132,7 @@ def build(rng, depth, pool, allow_special=True):
 
 def add_cycle(rng, root, pool):
     """tie a cycle; returns (root, kind) with kind in 'list' | 'dict' | 'instance_dict' | 'args' | 'setstate' """
-    kind = rng.choice(['list', 'dict', 'instance_dict', 'args', 'setstate', 'reduce_state', 'reduce_items'])
+    kind = rng.choice(['list', 'dict', 'instance_dict', 'args', 'setstate', 'reduce_state', 'reduce_items', 'deep_then_nested_cycle', 'deep_then_nested_cycle'])
     if kind == 'list':
         l = [root]; l.append(l); return l, kind
     if kind == 'dict':
@@ -129,6 +142,10 @@ def add_cycle(rng, root, pool):
     if kind == 'args':
         l = []; t = (1, l); l.append(t)            # a tuple reachable from itself: tuples are built from their (deep) items
         return [root, t], kind
+    if kind == 'deep_then_nested_cycle':
+        # a deep (__setstate__) construction whose state refers twice to one node, followed - one level down - by a self-referencing list
+        shared = [1, 2]; r = []; r.append(r); r.append('tail')
+        return [GetSet(shared, shared), root, [r], {'again': [r, shared]}], kind
     if kind == 'reduce_state':
         o = ReduceList('c'); o.append(root); o.tag = o     # the object is inside the state of its own reduce tuple
         return o, kind
